@@ -42,6 +42,18 @@ class IntS:
         s.i = i
 
 
+class ObjA:
+    """an object of the package in array-level code: class name + field values; methods are hooks or real bodies executed in place"""
+
+    def __init__(s, cls, fields):
+        s.cls, s.fields = cls, dict(fields)
+
+
+class Raised(Exception):
+    def __init__(s, exc):
+        s.exc = exc
+
+
 def is1(d):
     return isinstance(d, int) and d == 1
 
@@ -154,9 +166,43 @@ class ArrExec:
                     continue
                 raise Unsupported(f"with statement at line {st.lineno}")
             if isinstance(st, ast.Return):
-                return s.ev(st.value, env)
+                return s.ev(st.value, env) if st.value is not None else ("none",)
+            if isinstance(st, ast.If):
+                c = s.pytruth(s.ev(st.test, env), st)
+                r = s.block(st.body if c else st.orelse, env)
+                if r is not None:
+                    return r
+                continue
+            if isinstance(st, ast.Raise):
+                exc = st.exc.func if isinstance(st.exc, ast.Call) else st.exc
+                raise Raised(ast.unparse(exc))
+            if isinstance(st, ast.For) and isinstance(st.target, ast.Name) and not st.orelse:
+                it = s.ev(st.iter, env)
+                if not isinstance(it, list):
+                    raise Unsupported(f"for over {type(it).__name__} at line {st.lineno}")
+                for item in it:
+                    env[st.target.id] = item
+                    r = s.block(st.body, env)
+                    if r is not None:
+                        return r
+                continue
             raise Unsupported(f"statement {type(st).__name__} at line {st.lineno}")
         return None
+
+    def pytruth(s, v, node):
+        """truth value of a configuration-level value (never of data)"""
+        if isinstance(v, bool):
+            return v
+        if v is None:
+            return False
+        if isinstance(v, (list, ObjA)):
+            return bool(v) if isinstance(v, list) else True
+        raise Unsupported(f"Python truth value of {type(v).__name__} at line {node.lineno} (data-dependent control)")
+
+    def ev_BoolOp(s, e, env):
+        vals = [s.ev(v, env) for v in e.values]
+        ts = [s.pytruth(v, e) for v in vals]
+        return all(ts) if isinstance(e.op, ast.And) else any(ts)
 
     # ------------------------------------------------------------ expressions
     def ev(s, e, env):
@@ -181,10 +227,22 @@ class ArrExec:
             return Sc(NANX)
         if t in env:
             return env[t]            # e.g. self.resolution
+        if not (isinstance(e.value, ast.Name) and e.value.id == "np"):
+            base = s.ev(e.value, env)
+            if isinstance(base, ObjA):
+                if e.attr in base.fields:
+                    return base.fields[e.attr]
+                raise Unsupported(f"field {base.cls}.{e.attr}")
+            if isinstance(base, Arr) and e.attr == "T":
+                if base.ndim == 2:
+                    return Arr((base.shape[1], base.shape[0]), lambda i, j: base.elem(j, i), base.kind)
+                return base
         raise Unsupported(f"attribute {t} at line {e.lineno}")
 
     def ev_UnaryOp(s, e, env):
         v = s.ev(e.operand, env)
+        if isinstance(e.op, ast.Not):
+            return not s.pytruth(v, e)
         if isinstance(e.op, ast.USub):
             if isinstance(v, Arr):
                 return Arr(v.shape, lambda *idx: xr.neg(v.elem(*idx)))
@@ -247,9 +305,20 @@ class ArrExec:
             return ("range", n.i if isinstance(n, IntS) else n)
         if isinstance(f, ast.Attribute) and isinstance(f.value, ast.Name) and f.value.id == "np":
             return s.np_call(f.attr, e, env)
+        if t == "scalar" and len(e.args) == 1:
+            v = s.ev(e.args[0], env)
+            return v if isinstance(v, (Arr, Sc)) else Sc(s.scal(v, e))
         if isinstance(f, ast.Attribute):
             recv = s.ev(f.value, env)
             kw = s.kw(e, env)
+            if isinstance(recv, ObjA):
+                args = [s.ev(a, env) for a in e.args]
+                hk = s.hooks.get((recv.cls, f.attr))
+                if hk is not None:
+                    return hk(s, recv, args, e)
+                return s.inline(recv, f.attr, args, e)
+            if isinstance(recv, Sc) and f.attr == "squeeze" and not e.args:
+                return recv
             if isinstance(recv, Arr):
                 if f.attr == "squeeze" and not e.args:
                     shp = tuple(d for d in recv.shape if not is1(d))
@@ -271,12 +340,17 @@ class ArrExec:
         if name == "array" and len(args) == 1 and isinstance(args[0], tuple) and args[0][0] == "range":
             n = args[0][1]
             return Arr((n,), lambda j: X(xr.F, xr.I0, rint(j)))
+        if name == "atleast_2d" and len(args) == 1 and isinstance(args[0], Sc):
+            x0 = args[0].x
+            return Arr((1, 1), lambda i, j: x0)
         if name == "atleast_2d" and len(args) == 1:
             v = args[0]
             if isinstance(v, Arr) and v.ndim == 1:
                 return Arr((1, v.shape[0]), lambda i, j: v.elem(j), v.kind)
             if isinstance(v, Arr) and v.ndim == 2:
                 return v
+            if isinstance(v, Arr) and v.ndim == 0:
+                return Arr((1, 1), lambda i, j: v.elem(), v.kind)
             raise Unsupported("atleast_2d of a scalar")
         if name in ("abs", "absolute", "fabs") and len(args) == 1 and isinstance(args[0], Arr):
             v = args[0]
@@ -293,6 +367,21 @@ class ArrExec:
         if name in ("nancumsum", "nanmean", "nanmin", "nanmax") and len(args) == 1 and isinstance(args[0], Arr) and args[0].ndim == 2 and kw.get("axis") == 1:
             return s.reduce(name, args[0], False, e)
         raise Unsupported(f"np.{name} at line {e.lineno}")
+
+    def inline(s, obj, meth, args, node):
+        """the real body of obj.cls.meth executed in place (same reductions / obligations)"""
+        m, owner, fn = s.src.resolve_method(obj.cls, meth)
+        names = [a.arg for a in fn.args.args]
+        env = {"self": obj}
+        for nm, v in zip(names[1:], args):
+            env[nm] = v
+        save = s.fn_line
+        s.fn_line = fn.lineno
+        from .source import body_of
+        r = s.block(body_of(fn), env)
+        s.fn_line = save
+        s.inlined = getattr(s, "inlined", set()) | {f"{m}.{owner}.{meth}"}
+        return r
 
     # ------------------------------------------------------------ reductions along axis 1
     def reduce(s, kind, a, keepdims, node):
